@@ -390,3 +390,8 @@ package json
 //@   ensures !(old(s.intLen) < 0) && !(old(s.fraLen) < 0) ==> s.fraLen == old(s.fraLen)
 //@   ensures exists stop :: 0 <= stop && stop <= len(value) && (forall k :: 0 <= k && k < stop ==> isMant(value[k])) && (stop < len(value) ==> !isMant(value[stop]))
 //@           && len(result) == old(dcount(value, stop)) + (old(s.intLen) < 0 ? 0 - old(s.intLen) : (old(s.fraLen) < 0 ? 0 - old(s.fraLen) : 0))
+
+//@ func (GuessData).IsString()
+//@   props C03 C01
+//@   pure
+//@   ensures result == strLit(g.bytes)
